@@ -22,7 +22,7 @@ class Crash(BaseException):
     """The process died here."""
 
 
-N_CHUNKS = 3
+N_CHUNKS = 4   # first chunk is a 2-byte prefix (loaders fail differently on tiny files)
 
 
 class _Base:
@@ -116,6 +116,9 @@ class ModelFS(_Base):
             raise EOFError("Ran out of input")
         if kind == "pickle":
             raise _pickle.UnpicklingError("pickle data was truncated")
+        if c == 1:
+            # a 1-3 byte file is not recognised as a zip archive: torch falls back to the legacy unpickler
+            raise _pickle.UnpicklingError("invalid load key")
         raise RuntimeError("PytorchStreamReader failed reading zip archive: failed finding central directory")
 
     def save_path(self, content, path):
@@ -200,7 +203,8 @@ class RealFS(_Base):
         _os.makedirs(_os.path.dirname(p), exist_ok=True)
         data = _ser(content if content is not None else {"torn": True}, kind)
         with open(p, "wb") as f:
-            f.write(data[: (len(data) * nbytes) // N_CHUNKS])
+            cuts = [0, min(2, len(data))] + [(len(data) * (i + 1)) // (N_CHUNKS - 1) for i in range(N_CHUNKS - 1)]
+            f.write(data[: cuts[min(nbytes, N_CHUNKS - 1)]])
 
     def state(self, path):
         return ("present", None) if _os.path.exists(self._p(path)) else ("absent", None)
@@ -281,14 +285,19 @@ class _RealWriter:
     def write_payload(self, content, kind="pickle"):
         data = _ser(content, kind)
         n = len(data)
-        cuts = [0] + [(n * (i + 1)) // N_CHUNKS for i in range(N_CHUNKS)]
+        cuts = [0, min(2, n)] + [(n * (i + 1)) // (N_CHUNKS - 1) for i in range(N_CHUNKS - 1)]
         for i in range(N_CHUNKS):
             try:
                 self.fs.tick(f"write {_b(self.path)} chunk {i}")
             except Crash:
                 self.f.flush()
                 raise
-            self.f.write(data[cuts[i]:cuts[i + 1]])
+            end = cuts[i + 1]
+            if i == N_CHUNKS - 1:
+                # the final byte reaches the disk only at close(): a kill before close leaves the file incomplete
+                self._tail = data[end - 1:end]
+                end -= 1
+            self.f.write(data[cuts[i]:end])
             self.f.flush()
 
     def __enter__(self):
@@ -304,6 +313,7 @@ class _RealWriter:
     def close(self):
         if not self.f.closed:
             self.fs.tick(f"close {_b(self.path)}")
+            self.f.write(getattr(self, "_tail", b""))
             self.f.close()
 
 
